@@ -93,24 +93,31 @@ Lemma return_distinct_refuted_l : exists rows, return_distinct_query rows <> ded
 Proof. exists [[VInt 1]; [VInt 1]]. vm_compute. discriminate. Qed.
 
 (** * refutation witnesses for the operators *)
-Lemma filter_spec_refuted_l : exists fa p cs, Forall chunk_wf cs /\
-  rows_of (drain_filter fa row_env p cs) <> filter (row_passes fa row_env p) (rows_of cs).
+(** the Filter before df57ccb (C11-K1) *)
+Lemma filter_pre_refuted_l : exists fa p cs, Forall chunk_wf cs /\
+  rows_of (drain_filter_pre fa row_env p cs) <> filter (row_passes fa row_env p) (rows_of cs).
 Proof.
   exists fa_none, (cmp_col0 Eq 2), [mkChunk [[VInt 1]; [VInt 2]] (Some [0])].
   split; [repeat constructor; cbn; lia|]. vm_compute. discriminate.
 Qed.
 
 (** two stacked filters (a pattern property map under a WHERE, a WHERE after WITH ... WHERE) *)
-Lemma stacked_filter_refuted_l : exists fa p1 p2 rows,
-  rows_of (drain_filter fa row_env p2 (drain_filter fa row_env p1 (scan_chunks rows)))
+Lemma stacked_filter_pre_refuted_l : exists fa p1 p2 rows,
+  rows_of (drain_filter_pre fa row_env p2 (drain_filter_pre fa row_env p1 (scan_chunks rows)))
   <> filter (row_passes fa row_env p2) (filter (row_passes fa row_env p1) rows).
 Proof.
   exists fa_none, (cmp_col0 Eq 1), (cmp_col0 Ge 0), [[VInt 1]; [VInt 2]]. vm_compute. discriminate.
 Qed.
-Lemma stacked_filter_fixed_l fa envf p1 p2 cs :
-  rows_of (drain_filter_fixed fa envf p2 (drain_filter_fixed fa envf p1 cs))
+(** ... and the same witnesses on the operator as it is now *)
+Lemma filter_witness_now_l :
+  rows_of (drain_filter fa_none row_env (cmp_col0 Eq 2) [mkChunk [[VInt 1]; [VInt 2]] (Some [0])]) = []
+  /\ rows_of (drain_filter fa_none row_env (cmp_col0 Ge 0)
+                (drain_filter fa_none row_env (cmp_col0 Eq 1) (scan_chunks [[VInt 1]; [VInt 2]]))) = [[VInt 1]].
+Proof. split; reflexivity. Qed.
+Lemma stacked_filter_l fa envf p1 p2 cs :
+  rows_of (drain_filter fa envf p2 (drain_filter fa envf p1 cs))
   = filter (row_passes fa envf p2) (filter (row_passes fa envf p1) (rows_of cs)).
-Proof. now rewrite !filter_fixed_spec_l. Qed.
+Proof. now rewrite !filter_spec_l. Qed.
 
 Lemma distinct_overflow_refuted_l : exists cs, Forall chunk_wf cs /\
   rows_of (drain_distinct cs) <> dedup_from [] (rows_of cs).
@@ -134,12 +141,12 @@ Proof. destruct v; cbn; try discriminate; reflexivity. Qed.
 
 (** * the three-way split of a stream *)
 From Coq Require Import Permutation.
-Lemma partition3_stream_l fa envf p cs : sel_free cs = true -> bpred p = true ->
+Lemma partition3_stream_l fa envf p cs : bpred p = true ->
   Permutation (rows_of cs)
     (rows_of (drain_filter fa envf p cs) ++ rows_of (drain_filter fa envf (EUn Not p) cs)
      ++ rows_of (drain_filter fa envf (EUn IsNull p) cs)).
 Proof.
-  intros S B. rewrite !filter_spec_l by exact S. apply filter3_perm.
+  intros B. rewrite !filter_spec_l. apply filter3_perm.
   intros r. unfold row_passes. now apply partition3_l.
 Qed.
 
@@ -153,5 +160,5 @@ Qed.
 Lemma where_no_range_l fa tab p rows : range_pred p = None ->
   rows_of (where_chunks fa tab p rows) = filter (row_passes fa (tab_env tab) p) rows.
 Proof.
-  intros H. unfold where_chunks. rewrite H. rewrite filter_spec_l by apply scan_sel_free. now rewrite scan_rows.
+  intros H. unfold where_chunks. rewrite H. rewrite filter_spec_l. now rewrite scan_rows.
 Qed.
